@@ -135,6 +135,8 @@ structure KSLine where
   u : Nat
   v : Nat
   w : Nat
+  /-- position in the vector `TopologyConstraints::constraints()` returns (the order `solve()` scans) -/
+  seq : Nat := 0
   deriving Inhabited, BEq, Repr
 
 /-- a dumped BendConstraint (`KB` line) -/
@@ -147,6 +149,7 @@ structure KBLine where
   w : Nat
   p : Rat
   g : Rat
+  seq : Nat := 0
   deriving Inhabited, BEq, Repr
 
 structure Snap where
@@ -163,6 +166,8 @@ structure Snap where
   /-- the non-overlap separation constraints in `cs` after a construction (`KN`/`KC` lines) -/
   kn : Bool := false
   kc : Array (Nat × Nat × Rat) := #[]
+  /-- `F` line: the solver's final positions of the `solve()` that led to this state -/
+  fin : Option (Array Rat) := none
   deriving Inhabited
 
 def parsePath (ts : Array String) : Option (Nat × List PathPt) := do
@@ -210,15 +215,20 @@ def parseSnaps (c : Case) (nNodes nEdges : Nat) : Option (Array Snap) := do
       let s := out.back!
       let k : KSLine :=
         { e := nat! l[1]!, seg := nat! l[2]!, node := nat! l[3]!, ri := nat! l[4]!, nodeLeft := l[5]! == "1",
-          pos := v[0]!, p := v[1]!, g := v[2]!, u := nat! l[9]!, v := nat! l[10]!, w := nat! l[11]! }
+          pos := v[0]!, p := v[1]!, g := v[2]!, u := nat! l[9]!, v := nat! l[10]!, w := nat! l[11]!,
+          seq := s.ks.size + s.kb.size }
       out := out.pop.push { s with ks := s.ks.push k }
     else if l[0]! == "KB" && l.size ≥ 9 && out.size > 0 then
       let v ← nums? (l.extract 7 9)
       let s := out.back!
       let k : KBLine :=
         { e := nat! l[1]!, pt := nat! l[2]!, leftOf := l[3]! == "1", u := nat! l[4]!, v := nat! l[5]!, w := nat! l[6]!,
-          p := v[0]!, g := v[1]! }
+          p := v[0]!, g := v[1]!, seq := s.ks.size + s.kb.size }
       out := out.pop.push { s with kb := s.kb.push k }
+    else if l[0]! == "F" && l.size ≥ 2 && out.size > 0 then
+      let v ← nums? (l.extract 2 l.size)
+      let s := out.back!
+      out := out.pop.push { s with fin := some v }
     else if l[0]! == "C" && l.size ≥ 8 && out.size > 0 then
       let e := nat! l[1]!
       let s := out.back!
@@ -399,6 +409,9 @@ structure St where
   scanChecked : Nat := 0
   nonOverlap : Nat := 0
   nonOverlapUndecided : Nat := 0
+  moves : Nat := 0
+  movesCut : Nat := 0
+  movesAmbiguous : Nat := 0
   mismatch : Option String := none
 
 def St.fail (t : St) (m : String) : St := if t.mismatch.isSome then t else { t with mismatch := some m }
@@ -673,9 +686,83 @@ def checkEdgeStep (t : St) (prev s : Snap) (e stepNo : Nat) : St := Id.run do
   else
     return t.fail (where_ ++ s!"the path went from {n0} to {n1} points in one solve()")
 
+
+/-- one dumped constraint as `solve()` sees it -/
+structure TCon where
+  seq : Nat
+  straight : Bool
+  e : Nat
+  /-- segment index (straight) / point index (bend) -/
+  at_ : Nat
+  node : Nat
+  ri : Nat
+  tri : AdaptaVerif.Model.Tri.TriConstraint
+
+/-- the whole `solve()` step: from the constraints and rectangles of the previous state and the solver's final positions
+    (`F` line) the model (`Model/Tri`: maxSafeAlpha, the first-minimum loop, posOnLine) predicts minTAlpha, the new node
+    positions and WHICH constraint is satisfied; the observed move and path edit must be that.  Not compared when two
+    constraints tie for the minimum within 1e-9 or the minimum is within 1e-9 of 0 or 1 (rounding decides), nor in
+    scenes with a cyclic edge (its constraints are not dumped), nor when a constraint is tight at the start and violated at
+    the end (then `maxSafeAlpha` is ≈ 0 or, by the `msa<0` branch, the final slack - decided by the last bit). -/
+def checkMove (t : St) (prev s : Snap) (cyc : Array Bool) (stepNo : Nat) : St := Id.run do
+  match s.fin with
+  | none => return t
+  | some fin =>
+    if cyc.any id then return t
+    let d := s.dim
+    let centre (sn : Snap) (i : Nat) : Rat :=
+      let r := sn.nodes.getD i default
+      if d == 0 then r.minX + (r.maxX - r.minX) / 2 else r.minY + (r.maxY - r.minY) / 2
+    let ini : AdaptaVerif.Model.Tri.Pos := fun i => centre prev i
+    let finP : AdaptaVerif.Model.Tri.Pos := fun i => fin.getD i 0
+    let all : List TCon :=
+      (prev.ks.toList.map fun k => { seq := k.seq, straight := true, e := k.e, at_ := k.seg, node := k.node, ri := k.ri,
+                                     tri := { u := k.u, v := k.v, w := k.w, p := k.p, g := k.g, leftOf := k.nodeLeft } }) ++
+      (prev.kb.toList.map fun k => { seq := k.seq, straight := false, e := k.e, at_ := k.pt, node := k.v, ri := 0,
+                                     tri := { u := k.u, v := k.v, w := k.w, p := k.p, g := k.g, leftOf := k.leftOf } })
+    let ordered := all.mergeSort fun a b => a.seq ≤ b.seq
+    -- the loop of solve(): minTAlpha=1; if(tAlpha<minTAlpha) { minTAlpha=tAlpha; minT=t; }
+    let (minA, arg) := ordered.foldl (fun (acc : Rat × Option TCon) c =>
+      let a := c.tri.msa ini finP
+      if a < acc.1 then (a, some c) else acc) (1, none)
+    let tiny : Rat := 1 / 1000000000
+    let others := ordered.filter fun c => match arg with | some a => c.seq != a.seq | none => true
+    let tie := minA < 1 && others.any fun c => absQ (c.tri.msa ini finP - minA) ≤ tiny * (1 + absQ minA)
+    -- a constraint that is tight at the start (|initial slack| < 1e-9) and violated at the end gets msa = root ≈ 0 or, if its
+    -- initial slack rounds below 0, msa = fSlack (the `msa<0` branch): the last bit decides; likewise the sign of a final
+    -- slack within 1e-9 of 0 decides whether the constraint counts at all
+    let delicate := ordered.any fun c =>
+      let sI := c.tri.slackAt ini
+      let sF := c.tri.slackAt finP
+      (sF < tiny && absQ sI < tiny) || absQ sF < tiny
+    if tie || delicate || absQ minA < tiny || (minA < 1 && 1 - minA < tiny) then
+      return { t with movesAmbiguous := t.movesAmbiguous + 1 }
+    let t := { t with moves := t.moves + 1, movesCut := t.movesCut + (if minA < 1 then 1 else 0) }
+    let where_ := s!"cons tie: solve() step {stepNo} (axis {d}): "
+    -- the move
+    let newPos := AdaptaVerif.Model.Tri.moveStep (ordered.map (·.tri)) ini finP
+    match (List.range s.nodes.size).find? (fun i => !closeRel (centre s i) (newPos i)) with
+    | some i => return t.fail (where_ ++ s!"node {i} is at {showQ (centre s i)}, the model's move phase (minTAlpha = {showQ minA}) puts it at {showQ (newPos i)} (from {showQ (ini i)}, solver's final position {showQ (finP i)})")
+    | none => pure ()
+    -- which constraint is satisfied
+    let lens (sn : Snap) := (openEdges sn cyc).map fun e => (e, (sn.paths[e]!).length)
+    let changed := ((lens prev).zip (lens s)).filter fun ab => ab.1.2 != ab.2.2
+    let key (l : List PathPt) := l.map fun a => (a.node, a.ri)
+    match (if minA < 1 then arg else none) with
+    | none =>
+      if changed.isEmpty then return t
+      return t.fail (where_ ++ s!"no constraint limits the move (minTAlpha = {showQ minA}) but the paths of edges {changed.map (·.1.1)} changed length")
+    | some c =>
+      let pre := key (prev.paths[c.e]!)
+      let post := key (s.paths[c.e]!)
+      let exp := if c.straight then pre.take (c.at_ + 1) ++ [(c.node, c.ri)] ++ pre.drop (c.at_ + 1) else pre.eraseIdx c.at_
+      if post == exp && changed.all (fun ab => ab.1.1 == c.e) then return t
+      return t.fail (where_ ++ s!"minTAlpha = {showQ minA} is attained first by the {if c.straight then "StraightConstraint" else "BendConstraint"} of edge {c.e} ({if c.straight then "segment" else "point"} {c.at_}, node {c.node}), satisfying it gives the path {exp}; the library's path is {post} (edges whose length changed: {changed.map (·.1.1)})")
+
 def checkSolve (t : St) (prev s : Snap) (cyc : Array Bool) (stepNo : Nat) : St :=
   let t := (openEdges s cyc).foldl (fun t e => checkEdgeStep t prev s e stepNo) t
-  checkBends t s cyc
+  let t := checkBends t s cyc
+  checkMove t prev s cyc stepNo
 
 def St.stats (t : St) : List (String × Nat) :=
   [("cons.constructs", t.constructs), ("cons.node-events", t.events), ("cons.straight-compared", t.straight),
@@ -684,7 +771,9 @@ def St.stats (t : St) : List (String × Nat) :=
    ("cons.hidden-by-own-endnode", t.blind), ("cons.parallel-segments", t.parallelSegs),
    ("cons.rewrite.straight-satisfy", t.rewritesS), ("cons.rewrite.bend-satisfy", t.rewritesB),
    ("cons.rewrite.unchanged-edges", t.unchanged), ("cons.scan-vs-closed", t.scanChecked),
-   ("cons.non-overlap-compared", t.nonOverlap), ("cons.non-overlap-undecided", t.nonOverlapUndecided)]
+   ("cons.non-overlap-compared", t.nonOverlap), ("cons.non-overlap-undecided", t.nonOverlapUndecided),
+   ("cons.solve-steps-predicted", t.moves), ("cons.solve-steps-predicted.cut-short", t.movesCut),
+   ("cons.solve-steps-ambiguous", t.movesAmbiguous)]
 
 end ConsTie
 
